@@ -165,6 +165,7 @@ func checkC16(c *vlib.Ctx) (string, string) {
 		{Origins: []string{"https://a.example", co}, Methods: []string{"*"}, RequestHeaders: []string{"*"}, MaxAge: -1},
 		{Origins: []string{"https://a.example", co}, Methods: []string{"*", cm}, RequestHeaders: []string{"*", "Authorization"}, ResponseHeaders: []string{cr}},
 		{Origins: []string{"*"}, Methods: []string{"PUT", cm}, RequestHeaders: []string{"X-A", ch, "Authorization"}, ResponseHeaders: []string{cr}},
+		{Origins: []string{"https://a.example", "*", co}, Methods: []string{"PUT", cm}, RequestHeaders: []string{"X-A", "X-B", ch}, ResponseHeaders: []string{cr}, MaxAge: 30},
 		{Origins: []string{"https://*.a.example", co}, Credentialed: true, Methods: []string{"PUT", cm}, RequestHeaders: []string{"X-A", "X-B", ch}, ResponseHeaders: []string{cr}, MaxAge: 86400},
 		{Origins: []string{"https://a.example", co}, Credentialed: true, Methods: []string{"*"}, RequestHeaders: []string{"*"}},
 		{Origins: []string{"https://a.example", co}, PNA: true, Methods: []string{"PUT", cm}, RequestHeaders: []string{"X-A", ch}},
